@@ -36,6 +36,7 @@ func init() {
 func runC02(w *World, r *Report) {
 	hrConcurrentAllowed(w, r, "R6")
 	hrNotFoundOnlyWhenAbsent(w, r, "R6")
+	hrMemberDelimiter(w, r, "R7")
 	hrOnErrorWireFormat(w, r, "R6")
 	hrEarlyReturnTypes(w, r, "R6")
 	hrChildStrategyKeepsParent(w, r, "R6")
